@@ -149,13 +149,18 @@ def tblOp (mx : Nat) (t : List Nat) : TblOp → List Nat × Res
 def tblInit (t : List Nat) (e : List Nat) (d s n : Nat) : List Nat × Res :=
   if s + n ≤ e.length ∧ d + n ≤ t.length then (setRange t d ((e.drop s).take n), .ok []) else (t, .trap "tbl")
 
-def callIndirect (t : List Nat) (fns : List (Nat × Bool)) (i : Nat) : Res :=
+def glob0 (g : List (Nat × Nat)) : Nat := match g with
+  | [] => 0
+  | x :: _ => x.2
+
+/-- the functions return their constant plus the instance's global 0 (mod 2^32) -/
+def callIndirect (t : List Nat) (fns : List (Nat × Bool)) (g : List (Nat × Nat)) (i : Nat) : Res :=
   if i < t.length then
     match t.getD i 0 with
     | 0 => .trap "tbl"
     | r + 1 =>
       match fns[r]? with
-      | some (c, true) => .ok [c]
+      | some (c, true) => .ok [(c + glob0 g) % 4294967296]
       | some (_, false) => .trap "sig"
       | none => .fault
   else .trap "tbl"
@@ -301,7 +306,7 @@ def lstep (env : Env) (s : LState) : Op → LState × Res
   | .m o => let r := memOp s.mem o; ({ s with mem := r.1 }, r.2)
   | .g o => let r := globOp s.glob o; ({ s with glob := r.1 }, r.2)
   | .t o => let r := tblOp s.tmax s.tbl o; ({ s with tbl := r.1 }, r.2)
-  | .calli i => (s, callIndirect s.tbl s.fns i)
+  | .calli i => (s, callIndirect s.tbl s.fns s.glob i)
   | .minit k d sO n =>
     match s.data[k]? with
     | none => (s, .fault)
@@ -358,9 +363,9 @@ def hstep (env : Env) (h : Heap) (i : Inst) : Op → Heap × Res
     | some (.tbl mx t) => let r := tblOp mx t o; (h.set i.tbl (.tbl mx r.1), r.2)
     | _ => (h, .fault)
   | .calli ix =>
-    match h.get i.tbl, h.get i.code with
-    | some (.tbl _ t), some (.code fns) => (h, callIndirect t fns ix)
-    | _, _ => (h, .fault)
+    match h.get i.tbl, h.get i.code, h.get i.glob with
+    | some (.tbl _ t), some (.code fns), some (.vals g) => (h, callIndirect t fns g ix)
+    | _, _, _ => (h, .fault)
   | .minit k d sO n =>
     match h.get i.dhdr, h.get i.mem with
     | some (.hdrs dh), some (.mem m) =>
@@ -552,8 +557,9 @@ def shapeOf (fields : List (String × String)) : Shape :=
 /-- parts that may alias the compiled module: no op of either engine writes through them (the model has no
 op that writes a segment/code object; the harness hashes the segment bytes) -/
 def roClass : List String :=
-  ["DataInstances[]", "ElementInstances[]", "Exports", "Source", "MemoryInstance.definition", "Tables[].Max",
-   "Sys.nanosleep", "Sys.osyield"]
+  ["DataInstances[]", "Exports", "Source", "MemoryInstance.definition", "Tables[].Max",
+   "Sys.nanosleep", "Sys.osyield",
+   "s"]  -- the runtime's Store (name registry, type ids): changed by instantiate/close only, never by a guest op (C10)
 
 /-- every aliased part is in the read-only class; nothing is unclassified -/
 def classified (fields : List (String × String)) : Bool :=
